@@ -84,3 +84,49 @@ def random_automaton(rng, family, letters, max_states=5):
     if rng.random() < 0.4:
         d = {v: d[v] for v in sorted(d, key=repr, reverse=True)}
     return d, start, labels, {"at": p, "paths": [list(planted[0]), list(planted[1])]}
+
+
+def cancelling_labels(rng, letters, count=4):
+    """label alphabet of words (lengths 2..4) over the letters and their
+    upper-case inverse names, most of which contain an adjacent pair x X or
+    X x -- words that are not freely reduced.  -> list of distinct labels."""
+    full = list(letters) + [x.upper() for x in letters]
+    labels = []
+    for _ in range(200):
+        if len(labels) >= count:
+            break
+        x = letters[int(rng.integers(0, len(letters)))]
+        pair = x + x.upper() if rng.random() < 0.5 else x.upper() + x
+        shape = int(rng.integers(0, 5))
+        if shape == 0:
+            w = pair                                   # 'aA'
+        elif shape == 1:
+            w = _word(rng, full, 1, 1) + pair          # 'baA'
+        elif shape == 2:
+            w = pair + _word(rng, full, 1, 2)          # 'aAb', 'AaBa'
+        elif shape == 3:
+            w = _word(rng, full, 1, 1) + pair + _word(rng, full, 1, 1)   # 'baAB' (nested: bB after aA)
+        else:
+            w = _word(rng, full, 1, 3)                 # any word, reduced or not
+        if w not in labels:
+            labels.append(w)
+    return labels
+
+
+def cancelling_automaton(rng, letters, max_states=5):
+    """random deterministic automaton over a `cancelling_labels` alphabet in
+    which every state reachable in one step has outgoing edges.
+    -> (label dict, start, labels)."""
+    labels = cancelling_labels(rng, letters, count=int(rng.integers(2, 5)))
+    n = int(rng.integers(1, max_states + 1))
+    names = list(range(n)) if rng.random() < 0.5 else ["q%d" % i for i in range(n)]
+    density = float(rng.choice([0.4, 0.7, 1.0]))
+    d = {v: {} for v in names}
+    for v in names:
+        for lab in labels:
+            if rng.random() < density:
+                d[v][lab] = names[int(rng.integers(0, n))]
+        if not d[v]:
+            d[v][labels[int(rng.integers(0, len(labels)))]] = names[int(rng.integers(0, n))]
+    start = names[int(rng.integers(0, n))]
+    return d, start, labels
